@@ -961,7 +961,7 @@ class C26(Prop):
     def gen(self, rng, tier):
         for l in HAND:
             yield Case(loads(l), stream='hand')
-        n = {'quick': 18, 'thorough': 420, 'search': 120}.get(tier, 18)
+        n = {'quick': 14, 'thorough': 420, 'search': 120}.get(tier, 14)
         for name, prog in gen_programs(rng, n):
             enrich = rng.random() < 0.6
             if not frontend_ok(prog, enrich):
